@@ -852,7 +852,7 @@ lim5_suback!(lim5_suback, SubscribeAck, SubscribeAck, any_suback_reason, 0x90);
 lim5_suback!(lim5_unsuback, UnsubscribeAck, UnsubscribeAck, any_unsuback_reason, 0xB0);
 
 vharness! {
-    //@ props: C09 C15 C08
+    //@ props: C09 C15
     //@ tier: quick
     //@ functions: v5::Codec::{encodev, set_max_outbound_size}, EncodeLtd for Disconnect, reduce_limit, encoded_size_opt_props, encode_opt_props, var_int_len_from_size
     //@ bounds: peer Maximum Packet Size: every u32 except 1..=5; all 30 reason codes; optional session expiry (full width) and server reference (0..=1 byte) - never droppable; 0..=2 user properties (0..=1-byte strings); optional reason string 0..=2 bytes
